@@ -166,3 +166,69 @@ fn c10_ms_framebuf_reuse_body(bigger: bool) {
     assert!(fb.channel_slice(0)[0] == m[0] && fb.channel_slice(0)[1] == m[1]);
     assert!(fb.channel_slice(1)[0] == s[0] && fb.channel_slice(1)[1] == s[1]);
 }
+
+// ================================================================================================
+// C03 / C02: the crate's own `Source` meets the contract the driver unit (Verus `driver`) assumes
+// ================================================================================================
+
+/// A `Fill` that records what it was given.
+struct RecFill {
+    calls: usize,
+    len: usize,
+    first: i32,
+    last: i32,
+    bytes_calls: usize,
+}
+impl Fill for RecFill {
+    fn fill_interleaved(&mut self, interleaved: &[i32]) -> Result<(), SourceError> {
+        self.calls += 1;
+        self.len = interleaved.len();
+        if !interleaved.is_empty() {
+            self.first = interleaved[0];
+            self.last = interleaved[interleaved.len() - 1];
+        }
+        Ok(())
+    }
+    fn fill_le_bytes(&mut self, _bytes: &[u8], _bytes_per_sample: usize) -> Result<(), SourceError> {
+        self.bytes_calls += 1;
+        Ok(())
+    }
+}
+
+/// `MemSource::read_samples(block, dest)`: delivers exactly `min(block, remaining)` inter-channel
+/// samples, the NEXT ones in order, through exactly one `fill_interleaved` call (so the frame
+/// buffer and the MD5 context see the same samples), returns that count, and `len_hint()` is the
+/// true total.  This is the `Source` contract of the Verus driver unit, proved for the crate's own
+/// source; for foreign sources it is the trait documentation (assumption A-src).
+//@ unit props=C03,C02,C04 tier=quick kind=bounded timeout=600 funcs="MemSource::read_samples; MemSource::read_samples_from; MemSource::len_hint; MemSource::len" bound="2 channels, 7 inter-channel samples, block sizes 1..=9, three consecutive reads"
+#[kani::proof]
+#[kani::unwind(20)]
+fn c03_memsource_read() {
+    let data: [i32; 14] = kani::any();
+    let mut src = MemSource::from_samples(&data, 2, 16, 44100);
+    assert!(src.len_hint() == Some(7));
+    assert!(src.channels() == 2 && src.bits_per_sample() == 16 && src.sample_rate() == 44100);
+    let block: usize = kani::any();
+    kani::assume(1 <= block && block <= 9);
+    let mut consumed = 0usize;
+    let mut round = 0;
+    while round < 3 {
+        let mut rec = RecFill { calls: 0, len: 0, first: 0, last: 0, bytes_calls: 0 };
+        let r = src.read_samples(block, &mut rec);
+        let remaining = 7 - consumed;
+        let expect = if block < remaining { block } else { remaining };
+        assert!(r.is_ok());
+        let n = r.unwrap_or(usize::MAX);
+        assert!(n == expect);
+        assert!(rec.calls == 1 && rec.bytes_calls == 0);
+        assert!(rec.len == 2 * expect);
+        if expect > 0 {
+            assert!(rec.first == data[2 * consumed]);
+            assert!(rec.last == data[2 * (consumed + expect) - 1]);
+        }
+        consumed += expect;
+        round += 1;
+    }
+    kani::cover!(consumed == 7);
+    kani::cover!(block == 3);
+}
